@@ -24,6 +24,8 @@ import contracts.c18_points  # noqa: F401
 from contracts.c26_pool import wf_pool, inpool, at, task_in_pool
 from contracts.c11_completion import oc, final
 from contracts.c18_points import ipt, pt_ok
+import contracts.c06_holds  # noqa: F401
+from contracts.c06_holds import prereqs_ok
 
 P = 'cylc.flow.task_pool:TaskPool.'
 S = 'cylc.flow.scheduler:Scheduler.'
@@ -37,12 +39,6 @@ schema('Scheduler', 'cylc.flow.scheduler:Scheduler', fields={
 
 
 # ------------------------------------------------------------------ ghost view of prerequisites
-@uninterp(sorts=('TaskProxy',), result='bool')
-def prereqs_ok(t):
-    """every prerequisite of t is satisfied (Prerequisite.is_satisfied, C13)"""
-    return all(p.is_satisfied() for p in t.state.prerequisites)
-
-
 @uninterp(sorts=('TaskState',), result='int')
 def n_unsat(st):
     """number of unsatisfied keys of unsatisfied prerequisites"""
@@ -53,12 +49,6 @@ def n_unsat(st):
 def unsat_key(st, j):
     return tuple(st.get_unsatisfied_prerequisites()[j])
 
-
-contract('cylc.flow.task_proxy:TaskProxy.prereqs_are_satisfied',
-         sorts={'self': 'TaskProxy', 'result': 'bool'},
-         ensures={'ghost': 'result == prereqs_ok(self)'},
-         pure=True, assumed=True, props=['C03'],
-         note='all(pre.is_satisfied()): writes only the Prerequisite caches (C13), which no function here reads')
 
 contract('cylc.flow.task_state:TaskState.get_unsatisfied_prerequisites',
          sorts={'self': 'TaskState', 'result': f'list[{KEY}]'},
@@ -144,7 +134,7 @@ def any_active_or_released(pool):
                   (active(at(pool, p, i)) or released_waiting(at(pool, p, i))), p="str", i="str")
 
 
-@spec
+@spec(native=lambda pool: True)     # two-state (old() inside): checked symbolically only
 def pool_same(pool):
     return forall(lambda p, i: inpool(pool, p, i) == old(inpool(pool, p, i)) and
                   implies(inpool(pool, p, i), at(pool, p, i) is old(at(pool, p, i))), p="str", i="str")
@@ -156,7 +146,7 @@ contract(P + 'log_incomplete_tasks',
          sorts={'self': 'TaskPool', 'result': 'bool', 'incomplete': 'list[tuple[str,str]]'},
          requires=['wf_pool(self)'],
          ensures={'iff-some-finished-task-is-incomplete': 'result == any_incomplete(self)',
-                  'pool-unchanged': 'pool_same(self)'},
+                  'pool-unchanged': 'pool_same(self)', 'pool-still-well-formed': 'wf_pool(self)'},
          loops={0: dict(invariant=[
              '(len(incomplete) > 0) == exists(lambda j: 0 <= j and j < _i and '
              'is_incomplete(self._active_tasks_list[j]))',
@@ -182,7 +172,7 @@ contract(P + 'log_unsatisfied_prereqs',
                   'implies(result, any_partial(self))',
                   'true-if-some-task-within-the-stop-point-waits-on-something-within-it':
                   'implies(any_partial(self), result)',
-                  'pool-unchanged': 'pool_same(self)'},
+                  'pool-unchanged': 'pool_same(self)', 'pool-still-well-formed': 'wf_pool(self)'},
          ghost_vars={'g0': 'bool'},
          ghost_init=['g0 = False'],
          ghost_after={'task_point = itask.point': 'g0 = bool(unsat)'},
@@ -201,5 +191,64 @@ contract(P + 'log_unsatisfied_prereqs',
                  'forall(lambda j: implies(0 <= j and j < _i and within(self, int(unsat_key(itask.state, j)[0])), '
                  'exists(lambda k: k in unsat, k="str")))',
              ], modifies=['all:fresh[*]'])},
-         modifies=_POOLFRAME, options={'feas_timeout_ms': 500}, props=['C03'])
+         modifies=_POOLFRAME, options={'feas_timeout_ms': 500}, props=['C03'], tier='thorough')
+
+
+# ------------------------------------------------------------------ the chain up to the shutdown decision
+@spec
+def stalled_now(pool):
+    """nothing is active, nothing can run, and something is stuck (the property's second sentence, per call)"""
+    return (not any_active_or_can_run(pool)) and (any_incomplete(pool) or any_partial(pool))
+
+
+contract(P + 'is_stalled',
+         sorts={'self': 'TaskPool', 'result': 'bool', 'incomplete': 'bool', 'unsatisfied': 'bool'},
+         requires=['wf_pool(self)', 'pts_ok(self)'],
+         ensures={
+             'never-while-a-task-is-active-or-can-run': 'implies(old(any_active_or_can_run(self)), not result)',
+             'exactly-when-stuck': 'result == old(stalled_now(self))',
+             'pool-unchanged': 'pool_same(self)',
+             'pool-still-well-formed': 'wf_pool(self)',
+         },
+         modifies=_POOLFRAME, props=['C03'])
+
+schema('Timer', 'cylc.flow.timer:Timer', fields={})
+schema('Scheduler', 'cylc.flow.scheduler:Scheduler', fields={'timers': 'dict[str,Timer]',
+                                                             'workflow_db_mgr': 'WorkflowDatabaseManager'})
+contract('cylc.flow.timer:Timer.reset', sorts={'self': 'Timer'}, assumed=True, props=['C03'],
+         note='restarts a wall-clock timer')
+contract('cylc.flow.workflow_db_mgr:WorkflowDatabaseManager.put_workflow_stop_cycle_point',
+         sorts={'self': 'WorkflowDatabaseManager'}, assumed=True, props=['C03'],
+         note='queues a DB write (C43)')
+
+_SCHD_FRAME = ['self.is_stalled', 'self.pool._active_tasks_list', 'self.pool.active_tasks_changed']
+
+contract(S + 'check_workflow_stalled',
+         sorts={'self': 'Scheduler', 'result': 'bool'},
+         requires=['wf_pool(self.pool)', 'pts_ok(self.pool)'],
+         ensures={
+             'a-reported-stall-stays-reported': 'implies(old(self.is_stalled), result)',
+             'a-paused-workflow-is-not-newly-stalled':
+                 'implies(not old(self.is_stalled) and self.is_paused, not result)',
+             'otherwise-the-pool-decides':
+                 'implies(not old(self.is_stalled) and not self.is_paused, result == old(stalled_now(self.pool)))',
+             'flag-follows': 'self.is_stalled == result',
+             'pool-unchanged': 'pool_same(self.pool)',
+             'pool-still-well-formed': 'wf_pool(self.pool)',
+         },
+         modifies=_SCHD_FRAME, props=['C03'])
+
+contract(S + 'check_auto_shutdown',
+         sorts={'self': 'Scheduler', 'result': 'bool'},
+         requires=['wf_pool(self.pool)', 'pts_ok(self.pool)'],
+         ensures={
+             # first sentence of the property
+             'shuts-down-only-when-nothing-is-left-to-do':
+                 'implies(result, not self.is_paused and not self.is_restart_timeout_wait '
+                 'and not old(self.is_stalled) '
+                 'and not old(any_active_or_released(self.pool)) '
+                 'and not old(any_incomplete(self.pool)) and not old(any_partial(self.pool)))',
+             'pool-unchanged': 'pool_same(self.pool)',
+         },
+         modifies=_SCHD_FRAME, props=['C03'])
 
